@@ -20,11 +20,29 @@ from .api import LoopSpec  # noqa (defined z3-free for native replay)
 
 
 class FrameView(object):
-  __slots__ = ("fid", "extra")
+  __slots__ = ("fid", "extra", "known")
 
-  def __init__(self, fid, extra=None):
+  def __init__(self, fid, extra=None, known=None):
     self.fid = fid
     self.extra = extra or {}
+    self.known = known        # names the function has (locals + parameters); None: unknown
+
+
+def _known_names(ctx):
+  try:
+    from .interp import fn_locals
+    node = ctx.fn.node
+    names = set(fn_locals(node))
+    a = node.args
+    for x in list(a.args) + list(a.kwonlyargs) + list(getattr(a, "posonlyargs", [])):
+      names.add(x.arg)
+    if a.vararg:
+      names.add(a.vararg.arg)
+    if a.kwarg:
+      names.add(a.kwarg.arg)
+    return names
+  except Exception:
+    return None
 
 
 def assigned_names(stmts):
@@ -78,7 +96,7 @@ def run_loop(I, node, spec, st, ctx, k):
   where = I.where(ctx, node)
   lname = spec.name or ("loop@" + where)
   fr = st.frames[ctx.fid]
-  view = FrameView(ctx.fid)
+  view = FrameView(ctx.fid, None, _known_names(ctx))
 
   if isinstance(node, ast.For):
     return run_for(I, node, spec, st, ctx, k)
@@ -221,10 +239,10 @@ def run_for(I, node, spec, st, ctx, k):
       raise Unsupported("for-loop invariant given for a loop over a concrete sequence at %s" % where)
     else:
       n = zint(st0.obj(seq).data["len"])
-    view = FrameView(ctx.fid, {"_i": 0, "_seq": seq})
+    view = FrameView(ctx.fid, {"_i": 0, "_seq": seq}, _known_names(ctx))
 
     def eval_pred(fn, st_, i, kk):
-      v = FrameView(ctx.fid, {"_i": i, "_seq": seq})
+      v = FrameView(ctx.fid, {"_i": i, "_seq": seq}, _known_names(ctx))
       return I.call_value(fn, [v], {}, st_, ctx, kk, node)
 
     def after_init(st1, inv0):
